@@ -80,6 +80,18 @@ def deleteAll (t : Table) (src : Nat) : Table :=
 /-- all records of the table (ROATable.List without its order) -/
 def recs (t : Table) : List Rec := t.flatMap fun b => b.2.map fun r => (b.1, r)
 
+/-- ROATable.Info, the `records` map: how many entries the source has in the family's tree -/
+def infoRecords (t : Table) (fam src : Nat) : Nat :=
+  ((recs t).filter fun x => x.1.fam == fam && x.2.src == src).length
+
+/-- the buckets of the family in which the source has at least one entry (`tmpRecords[src] > 0`) -/
+def infoPrefixList (t : Table) (fam src : Nat) : List Prefix :=
+  (t.filter fun b => b.1.fam == fam && b.2.any fun r => r.src == src).map (·.1)
+
+/-- ROATable.Info, the `prefixes` map: in how many buckets the source has an entry — one per
+    bucket, however the source's entries interleave with those of other sources -/
+def infoPrefixes (t : Table) (fam src : Nat) : Nat := (infoPrefixList t fam src).length
+
 /-! ### Validate -/
 
 /-- AS_PATH segment: `typ` 1 = SET, 2 = SEQ, 3 = CONFED_SEQ, 4 = CONFED_SET. -/
